@@ -336,7 +336,7 @@ func fieldsSx(fs []pf) Sx {
 func genParse(c *Ctx) {
 	g := &pgen{c}
 	r := c.Rng
-	run := func(in Sx) { c.Emit(in, runParse(in)) }
+	run := func(in Sx) { c.Pending(in); c.Emit(in, runParse(in)) }
 	none := Sym("none")
 	for i := 0; i < c.N; i++ {
 		// dictionaries: none / app / transport+app
